@@ -529,11 +529,16 @@ func main() {
 	gin.SetMode(gin.ReleaseMode)
 	r := vcommon.Start("C36", "exploration")
 	cases := genCases(r.Thorough())
+	nSingle := len(cases)
+	cases = append(cases, genInterferenceCases(r.Thorough())...)
 	r.Rule = fmt.Sprintf("for each of the 13 entity types: every set of 0, 1 or 2 entities whose client-chosen string (path / name) ranges over a %d-string alphabet "+
 		"(14 harmless incl. empty, regexp name, braces, comma/equals, non-ASCII, TAB, CR; 17 needing escaping: quote, backslash, line feed, invalid UTF-8, mixed; "+
 		"pairs combine at most one escaping class; quick tier: pairs over a 13-string sub-alphabet with every class) x counter magnitudes {distinct small, 0, near 2^63-1, >2^53; floats incl. NaN/Inf/1e21} x baseline "+
 		"{others empty, others populated, others not configured} (all crossed for <=1 entity [thorough: also for 2]) x paths: ready x reader sets x 0-2 forward destinations "+
 		"x every query variant {none, type=T, type=other, type=unknown, filter=id of each entity (with and without type), filter=nonexistent, path= for forward destinations}; "+
+		"plus CROSS-ENTITY INTERFERENCE worlds (harmless strings, prefix-related names): paths as every ORDERED pair over {ready,notReady} x 5 reader sets (none, one type, repeated+mixed, disjoint, overlapping; thorough: 6, all 11 reader types) x 0-2 forward destinations "+
+		"(different ids/protocols/states per path) and every ordered triple over ready x reader sets (thorough: also quadruples), paths and every list type as ordered pairs/triples of counter magnitudes and of states "+
+		"(two sessions on one path included), and worlds with all 13 types populated at once, each under no query, type=T, every path=/id filter with and without type, forward_dest= of every destination, path= prefixes; "+
 		"plus the MoQ reachability corpus (CLIENT_SETUP PATH strings through the real session code) and an HTTP-listener equivalence corpus. "+
 		"distinct = (type, #entities, escaping class, magnitude, baseline, query variant, verdict)", len(strs))
 
@@ -694,6 +699,8 @@ func main() {
 	}
 	sort.Strings(aff)
 	r.Set("cases", len(cases))
+	r.Set("cases_single_type_alphabet", nSingle)
+	r.Set("cases_cross_entity_interference", len(cases)-nSingle)
 	r.Set("http_listener_equivalence_cases", nhttp)
 	r.Set("moq_client_paths", reach)
 	r.Set("failing_cases_by_class", counts)
